@@ -10,7 +10,7 @@
    the property as an executable predicate over such a trace; the driver evaluates the same
    [check] on the traces of the Go implementation. *)
 From Coq Require Import NArith List Bool.
-From C28 Require Import Model ProofsRefute ProofsRun ProofsPow2 ProofsUncond.
+From C28 Require Import Model ProofsRefute ProofsRun ProofsPow2 ProofsUncond ProofsStore.
 Import ListNotations.
 Local Open Scope N_scope.
 
@@ -73,6 +73,20 @@ Example C28_nonvacuous :
   map (fun x => (o_res (snd x), o_pages (snd x))) (run fixed c zero_mem ops)
   = [(RPtr 16, 1); (RPtr 32, 1); (ROk, 1); (RPtr 56, 3); (ROk, 3); (RPtr 32, 3); (RVal 170, 3); (ROk, 3);
      (RErr EEmptyHdr, 3); (RErr EPoisoned, 3)]
+  /\ check c (run fixed c zero_mem ops) = true.
+Proof. split; vm_compute; reflexivity. Qed.
+
+(* multi-byte guest accesses are sequences of byte accesses ([store_bytes] / [load_bytes], the
+   expansion the driver applies to the harness ops W / R), so C28_spec covers them; non-vacuity:
+   three allocations filled over their whole requested size (33, 7 and 5 bytes), a free, two
+   further allocations (one reuses the freed block), then the first and third read back whole *)
+Example C28_nonvacuous_multibyte :
+  let c := mkCfg 0 1 65536 in
+  let ops := [OAlloc 33; OAlloc 7; OAlloc 5] ++ store_bytes 8 (map N.of_nat (seq 1 33)) ++ store_bytes 80 [200; 201; 202; 203; 204; 205; 206]
+             ++ store_bytes 96 [9; 8; 7; 6; 5] ++ [OFree 80; OAlloc 3; OAlloc 64] ++ load_bytes 8 33 ++ load_bytes 96 5 in
+  map (fun x => o_res (snd x)) (run fixed c zero_mem ops)
+  = [RPtr 8; RPtr 80; RPtr 96] ++ repeat ROk 45 ++ [ROk; RPtr 80; RPtr 112]
+    ++ map (fun k => RVal (N.of_nat k)) (seq 1 33) ++ [RVal 9; RVal 8; RVal 7; RVal 6; RVal 5]
   /\ check c (run fixed c zero_mem ops) = true.
 Proof. split; vm_compute; reflexivity. Qed.
 
